@@ -999,6 +999,8 @@ def one_rx(chk, program, rule='ONE-RX'):
                         res = res and up
                 return res
             via = callers_locked(q.split('.')[-1])
+            if not q.split('.')[-1].startswith('_'):
+                via = False          # a public method: its callers (the application, the reconnect tasks) do not hold the lock
             if via is None:
                 chk.unknown(rule, f"{q}::under-lock", f"the receive loop is started in {q}, outside `async with self.lock`, and the calls of {q} could not all be followed", IO, node.lineno)
             else:
